@@ -127,9 +127,9 @@ func runIssuerRace(r *Run, rng *Rng, nsubs, rounds, fault int) {
 		if c.Kind == OpUpload && len(c.Key) > 7 && c.Key[:7] == "issuer/" {
 			switch fault {
 			case 2:
-				d = Decision{Apply: false, Err: errInjected}
+				d = Decision{Apply: false, Err: rotatingInjectedErr()}
 			case 3:
-				d = Decision{Apply: true, Err: errInjected}
+				d = Decision{Apply: true, Err: rotatingInjectedErr()}
 			}
 			d.Gate = func() {
 				held <- struct{}{}
